@@ -133,7 +133,7 @@ def valid_constraints(cons, frame):
                 if col is not None and atype != 'string':
                     return False
             elif k == 'rex':
-                if not isinstance(v, list) or not v:
+                if not isinstance(v, list):
                     return False
                 for r in v:
                     try:
@@ -313,13 +313,29 @@ def run(case, ctx):
               'report:' + case['report'])
     kw = dict(epsilon=case['epsilon'], type_checking=case['type_checking'],
               report=case['report'], repair=False)
-    ok, v = quiet(verify_df, df.copy(), copy.deepcopy(case['constraints']),
-                  **kw)
+    cons_obj = copy.deepcopy(case['constraints'])
+    ok, v = quiet(verify_df, df.copy(), cons_obj, **kw)
     if not ok:
         out.violate('never-raises', v.bucket(), v.detail())
         return out
     if check_result(out, v, exp, case):
         check_counts(out, v, exp, case)
+    # a history of two calls: the SAME in-memory constraints object is
+    # verified again under the other type-checking mode (and other epsilon);
+    # what the first call did must not leak into the second
+    other = dict(case, type_checking=('strict' if case['type_checking']
+                                      == 'sloppy' else 'sloppy'),
+                 epsilon={None: 0.5, 0: 0.01, 0.01: 0, 0.5: None}[
+                     case['epsilon']])
+    exp_o = expected_verdicts(other)
+    ok, vo = quiet(verify_df, df.copy(), cons_obj, epsilon=other['epsilon'],
+                   type_checking=other['type_checking'],
+                   report=case['report'], repair=False)
+    if not ok:
+        out.violate('never-raises', vo.bucket(), 'second call on the same '
+                    'constraints object: ' + vo.detail())
+    else:
+        check_result(out, vo, exp_o, other, tag=':second-call-same-dict')
     # metamorphic: add one null-valued constraint of a kind not yet present
     for f in exp:
         if f not in cols:
